@@ -132,7 +132,10 @@ pub fn real_bind_text(vars: &[(String, String)], text: &str) -> String {
 
 // (`PATH` / `HOME` exist in the process environment: an undefined script variable of that name is
 // still "nothing"; `a$b` / `rate%` are legal names — only spaces, `=` and `}` end or break a name)
-const NAMES: [&str; 10] = ["x", "y", "long_name", "a.b", "é", "n1", "PATH", "HOME", "a$b", "rate%"];
+// names with Unicode white space that is NOT a name-ending character (NBSP, form feed, U+3000,
+// U+2028), the EMPTY name (`${}` / `%{}` - definable through set_by_name or by the embedder) and
+// names made of syntax characters are legal too
+const NAMES: [&str; 18] = ["x", "y", "long_name", "a.b", "é", "n1", "PATH", "HOME", "a$b", "rate%", "", "first\u{a0}name", "a\u{c}b", "\u{3000}w", "u\u{2028}", "a:b", "#h", "{"];
 
 fn lit(rng: &mut Rng) -> String {
     let n = 1 + rng.below(5);
